@@ -11,5 +11,7 @@ CONSTANTS N = 2
   G_CHAIN = TRUE
   G_GLOBDEPTH = TRUE
   G_WALKDEPTH = FALSE
+  G_FILTERTOP = TRUE
+  FSTREAM = TRUE
 INVARIANTS EmitCase NoOverflow WorkBounded ChainBounded
 CHECK_DEADLOCK TRUE
